@@ -313,7 +313,9 @@ func snippet(src string, off int) string {
 
 var c20Prefixes = []string{"", "l1\nl2\n", "{# c1\nc2 #}\n", "{{ \"s1\ns2\" }}", "{{ \"s1\n#{a}\ns2\" }}\n", "é\n\n", "{% set q = 'x\ny' %}\n",
 	// multi-byte characters after the last newline of a multi-line token, the construct under test on the same line
-	"l1\n» é ", "{# c1\n€ #}", "{{ \"s1\né€\" }}", "{% set q = 'x\n»' %}"}
+	"l1\n» é ", "{# c1\n€ #}", "{{ \"s1\né€\" }}", "{% set q = 'x\n»' %}",
+	// line breaks between the tokens of an interpolated expression
+	"{{ \"s1#{ a\n }s2\" }}", "{{ \"#{ f(1,\n 2) }\" }}\n", "{% set q = \"x#{ a |\n up }»\" %}é ", "{{ \"#{\n[1,\n2]|join\n}\n#{ a\n~\na }\" }}"}
 
 func c20NewlineSites(toks []stok) []site {
 	var res []site
@@ -326,7 +328,14 @@ func c20NewlineSites(toks []stok) []site {
 }
 
 func c20Items() []c14Item {
-	items := c14Items()
+	var items []c14Item
+	for _, it := range c14Items() {
+		// forms outside the library's language are tokenised differently by it; positions are claimed for
+		// what parses
+		if !strings.HasPrefix(it.name, "twig:") {
+			items = append(items, it)
+		}
+	}
 	items = append(items,
 		c14Item{"multiline", "line1\n{% if a %}\n  x {{ a }}\n{% else %}\n  {{ b }}\n{% endif %}\nlast {{ c }}"},
 		c14Item{"embedblocks", "{% embed 'base' %}\n{% block b %}e{{ a }}{% endblock %}\n{% endembed %}"},
@@ -523,7 +532,7 @@ func c20Levels(tier string) []core.Level {
 	}
 	items := c20Items()
 	lv := []core.Level{
-		{Name: fmt.Sprintf("node positions: corpus x 11 multi-line prefixes x every newline placement with <= %d deviation(s)", maxDev), Gen: func(emit func(core.Case)) {
+		{Name: fmt.Sprintf("node positions: corpus x 15 multi-line prefixes x every newline placement with <= %d deviation(s)", maxDev), Gen: func(emit func(core.Case)) {
 			for ii, it := range items {
 				sites := c20NewlineSites(stokens(it.src))
 				for pi := range c20Prefixes {
@@ -630,7 +639,7 @@ func init() {
 	core.Register(&core.Check{
 		ID:       "C20",
 		Category: "exploration",
-		Rule: "(a) corpus (one template per tag kind / expression form, three hosts, plus multi-line templates) x 11 multi-line prefixes (text, comment, string, interpolated string, multi-line tag, multi-byte characters before and after the last newline of a multi-line token) x every placement of a newline at a token boundary inside delimiters (<= 1 deviation, thorough <= 2): every anchored node of the public AST must report the line:column an independent tokeniser computes for its anchor token; " +
+		Rule: "(a) corpus (one template per tag kind / expression form, three hosts, plus multi-line templates) x 15 multi-line prefixes (text, comment, string, interpolated string, multi-line tag, multi-byte characters before and after the last newline of a multi-line token, line breaks between the tokens of an interpolated expression) x every placement of a newline at a token boundary inside delimiters (<= 1 deviation, thorough <= 2): every anchored node of the public AST must report the line:column an independent tokeniser computes for its anchor token; " +
 			"(b) every truncation offset inside a delimiter pair or open block must be rejected and (d) the reported position must be a token start or end of input; (c) one syntax error of each listed kind injected at every token boundary must be rejected with the error located at the injected token; " +
 			"(e) errors from named templates loaded directly / via include, extends, import, embed, use must identify the template. distinct = distinct source; non-trivial = multi-line source or an error case",
 		Assumptions: []string{
